@@ -38,7 +38,7 @@ func (obj Object) ReferenceOrigins(ctx context.Context) reference.Origins {
 		keyExpr, ok := item.Key.(*hclsyntax.ObjectConsKeyExpr)
 		if ok {
 			parensExpr, ok := keyExpr.Wrapped.(*hclsyntax.ParenthesesExpr)
-			if ok {
+			if ok && obj.cons.AllowInterpolatedKeys {
 				keyCons := schema.AnyExpression{
 					OfType: cty.String,
 				}
